@@ -6,6 +6,8 @@ CONSTANTS
   MaxInj = @@MAXI@@
   InjKinds = {"fd", "fdn", "fds", "fe", "fen", "fes", "unk"}
   RSizes = {"one", "small", "big"}
+  Concurrent = FALSE
+  AtomicFrames = TRUE
   Gen = TRUE
   Emit = TRUE
 INIT Init
